@@ -234,7 +234,8 @@ Section Body.
     m_skip t || has_dyn MSkip (tid t) dyn || memN (tid t) desel.
 
   Definition verdict (c : config) (E : list edge) (w : world) (t : task) : bool + bool :=
-    if force c then inr true
+    if negb (preds_exist E w t) then inl true
+    else if force c then inr true
     else check_loop w t (neighbours E t) (fun k => memN k (pred_nodes E t) || N.eqb k (tid t)).
 
   Definition prods_exist (w : world) (t : task) : bool :=
@@ -518,8 +519,17 @@ Section Body.
   Proof.
     rt c E dyn desel w t f. destruct SP; simpl; intros; try discriminate.
     match goal with H : verdict _ _ _ _ = inr false |- _ => unfold verdict in H;
+      destruct (negb (preds_exist E w t)); [discriminate|];
       destruct (force c); [discriminate|]; split; auto;
       exact (proj1 (check_loop_false _ _ _ _) H) end.
+  Qed.
+
+  Lemma preds_exist_of_match E w t :
+    (forall k, In k (neighbours E t) -> row_matches w t k) -> preds_exist E w t = true.
+  Proof.
+    intros H. unfold preds_exist. apply forallb_forall. intros k Hk.
+    destruct (H k) as [s [A _]]; [unfold neighbours; apply in_or_app; left; exact Hk|].
+    rewrite A. reflexivity.
   Qed.
 
   Lemma any_changed_false E w t :
@@ -543,7 +553,20 @@ Section Body.
     assert (PF : persist_fires E w t = false).
     { unfold persist_fires. rewrite (any_changed_false E w t HM). apply andb_false_r. }
     assert (V : verdict c E w t = inr false).
-    { unfold verdict. rewrite F. apply check_loop_false. exact HM. }
+    { unfold verdict. rewrite (preds_exist_of_match E w t HM), F. apply check_loop_false. exact HM. }
+    rt c E dyn desel w t f. destruct SP; auto; congruence.
+  Qed.
+
+  (* C08 (F32, repaired): a task that no marker keeps from running and one of whose dependencies does
+     not exist fails without being started - whatever else changed, with or without --force *)
+  Theorem missing_dependency_fails c E dyn desel w t f :
+    reaches_check c E dyn desel w t = true -> preds_exist E w t = false ->
+    run_task body c E dyn desel w t f = mkTres OFail w [].
+  Proof.
+    intros RC PE.
+    assert (V : verdict c E w t = inl true) by (unfold verdict; rewrite PE; reflexivity).
+    unfold reaches_check in RC. rewrite !andb_true_iff, !negb_true_iff in RC.
+    destruct RC as [[[[A1 A2] A3] A4] A5].
     rt c E dyn desel w t f. destruct SP; auto; congruence.
   Qed.
 
